@@ -215,11 +215,11 @@ theorem go_skip (cfg : Cfg) (a : A) (rd : Read) (rest : List Read) (segs : List 
 theorem go_take (cfg : Cfg) (a : A) (rd : Read) (rest : List Read) (evs : List Ev) (segs : List (Nat × List Ev))
     (fuel : Nat) (m : AMod) (h : a.live rd.uid = some m) :
     Spec.roundBody.go cfg a (rd :: rest) ((rd.uid, evs) :: segs) (fuel + 1) =
-      Spec.roundBody.go cfg (Spec.segment cfg (Spec.checkNoticeOrigin cfg a (some rd) evs) rd evs) rest segs fuel := by
+      Spec.roundBody.go cfg (Spec.segment cfg (Spec.preSeg cfg a rd evs) rd evs) rest segs fuel := by
   rw [Spec.roundBody.go.eq_def]
   simp only []
   obtain ⟨hg, hal⟩ := Spec.live_some.mp h
-  simp [hg, hal]
+  simp [hg, hal, Spec.preSeg]
 
 /-- with no segment left, `go` only reports (under C03) the frames that were never read -/
 theorem go_nil_ext (cfg : Cfg) : ∀ (reads : List Read) (a : A) (fuel : Nat),
@@ -325,16 +325,16 @@ theorem readAll_go : ∀ (reads : List Read) (a : A) (s sQ : State) (E : List Ev
           rw [← he, hE2, hE1]; simp
         exact List.append_cancel_left this
       -- the C14 origin check only appends error entries
-      have invN : ∀ evs', Inv cfg (Spec.checkNoticeOrigin cfg a (some rd) evs') s := fun evs' =>
-        ⟨sim_coreExt inv.sim (Spec.checkNoticeOrigin_ext cfg a (some rd) evs').core, inv.top, inv.j, inv.t⟩
-      have errN : ∀ evs' p, p ∈ proven → Spec.NoErr p a → Spec.NoErr p (Spec.checkNoticeOrigin cfg a (some rd) evs') :=
-        fun evs' p hp hn => (Spec.checkNoticeOrigin_ext cfg a (some rd) evs').noErr (fun h => proven_not hp (by
+      have invN : ∀ evs', Inv cfg (Spec.preSeg cfg a rd evs') s := fun evs' =>
+        ⟨sim_coreExt inv.sim (Spec.preSeg_ext cfg a rd evs').core, inv.top, inv.j, inv.t⟩
+      have errN : ∀ evs' p, p ∈ proven → Spec.NoErr p a → Spec.NoErr p (Spec.preSeg cfg a rd evs') :=
+        fun evs' p hp hn => (Spec.preSeg_ext cfg a rd evs').noErr (fun h => proven_not hp (by
           simp only [List.mem_singleton] at h; subst h; simp [others])) hn
       -- the abstract state after this frame alone
       have tt1 : T (readOne cfg s rd) :=
         T_of_A inv.t (ta_readOne ok hmt (ordOK_of_perm hperm) hfuel inv.top rd).2
       have hx := segment_ok ok hfuel hperm (invN E1) rd hu0 m hm (readOne cfg s rd) (quietTo_refl t1 j1 tt1) E1 hE1
-      rcases readAll_go rest (Spec.segment cfg (Spec.checkNoticeOrigin cfg a (some rd) E1) rd E1) (readOne cfg s rd) sQ
+      rcases readAll_go rest (Spec.segment cfg (Spec.preSeg cfg a rd E1) rd E1) (readOne cfg s rd) sQ
           (E2a ++ E2b) fuel ⟨hx.1.sim, hx.1.top, hx.1.j, hx.1.t⟩ hwf' hlen' q hE2 with ⟨h1, h2, h2'⟩ | ⟨h1, h2, h3, h4⟩
       · -- the last frame handled in this round: the continuation's events belong to its segment
         rw [h2] at q
@@ -348,11 +348,11 @@ theorem readAll_go : ∀ (reads : List Read) (a : A) (s sQ : State) (E : List Ev
           (by rw [he, hE]; simp)
         rw [hsplit]
         -- the remaining frames are pending on connections that are gone
-        have hdead : ∀ x ∈ rest, (Spec.segment cfg (Spec.checkNoticeOrigin cfg a (some rd) (E1 ++ (E2a ++ E2b))) rd
+        have hdead : ∀ x ∈ rest, (Spec.segment cfg (Spec.preSeg cfg a rd (E1 ++ (E2a ++ E2b))) rd
             (E1 ++ (E2a ++ E2b))).live x.uid = none := by
           intro x hx
           have hgone : sQ.find x.uid = none := nest_gone q.nest q.top.aopen x.uid (h2' x hx)
-          cases hl : (Spec.segment cfg (Spec.checkNoticeOrigin cfg a (some rd) (E1 ++ (E2a ++ E2b))) rd
+          cases hl : (Spec.segment cfg (Spec.preSeg cfg a rd (E1 ++ (E2a ++ E2b))) rd
               (E1 ++ (E2a ++ E2b))).live x.uid with
           | none => rfl
           | some y =>
